@@ -36,15 +36,69 @@ def is_mutable_display(node):
     return isinstance(node, (ast.List, ast.Dict, ast.Set, ast.ListComp, ast.DictComp, ast.SetComp)) or (isinstance(node, ast.Call) and isinstance(node.func, ast.Name) and node.func.id in ("list", "dict", "set", "bidict", "defaultdict", "OrderedDict", "bytearray", "deque"))
 
 
+def _global_roots(t, depth=0):
+    """Module-level objects the term may BE (no copy in between)."""
+    if not isinstance(t, tuple) or not t or depth > 8:
+        return set()
+    if t[0] == "global":
+        return {t}
+    if t[0] == "mut":
+        return _global_roots(t[1], depth + 1)
+    if t[0] == "ifexp":
+        return _global_roots(t[2], depth + 1) | _global_roots(t[3], depth + 1)
+    if t[0] == "boolop":
+        out = set()
+        for x in t[2]:
+            out |= _global_roots(x, depth + 1)
+        return out
+    return set()
+
+
+def _field_aliases(ctx, cls):
+    """field name -> module-level objects some method of the class stores into self.<field> without copying."""
+    cache = ctx.__dict__.setdefault("_field_alias_cache", {})
+    if cls.qualname in cache:
+        return cache[cls.qualname]
+    out = {}
+    for m in cls.methods.values():
+        if not m.params or m.is_staticmethod:
+            continue
+        me = ("param", m.params[0])
+        for e, ls, path in ctx.A.paths(m).all_effects():
+            if e.kind == "store_attr" and e.a == me and not isinstance(e.node, ast.AugAssign):
+                g = {x for x in _global_roots(e.c) if ctx.p.resolve_module_name(ctx.p.modules[x[1]], x[2]) and ctx.p.resolve_module_name(ctx.p.modules[x[1]], x[2])[0] == "const"}
+                if g:
+                    out.setdefault(e.b, set()).update(g)
+    cache[cls.qualname] = out
+    return out
+
+
 def global_state_rule(ctx, rep, cl, functions):
     """No module-level / class-level object is mutated by code in `functions`."""
     p = ctx.p
     n = 0
     for f in functions:
         fp = ctx.A.paths(f)
+        fal = _field_aliases(ctx, f.cls) if f.cls is not None else {}
+        me = ("param", f.params[0]) if (f.cls is not None and f.params and not f.is_staticmethod) else None
         for e, ls, path in fp.all_effects():
             recv = None
             what = None
+            if fal and me is not None:
+                # self.<field> holds a module-level object (assigned without a copy) and is updated in place
+                hit = None
+                if e.kind == "store_attr" and e.a == me and e.b in fal and isinstance(e.node, ast.AugAssign) and e.c[0] == "binop" and e.c[1] in ("|", "&", "^", "-", "+") and e.c[2] == ("attr", me, e.b):
+                    hit = (e.b, "%s=" % e.c[1])
+                elif e.kind == "call" and e.a[1][0] == "attr" and e.a[1][2] in MUTATORS | {"__setitem__"} and strip_mut(e.a[1][1]) == ("attr", me, e.a[1][1][2] if e.a[1][1][0] == "attr" else None) and e.a[1][1][0] == "attr" and e.a[1][1][2] in fal:
+                    hit = (e.a[1][1][2], ".%s()" % e.a[1][2])
+                elif e.kind == "store_sub" and e.a[0] == "attr" and e.a[1] == me and e.a[2] in fal:
+                    hit = (e.a[2], "[...] =")
+                if hit is not None:
+                    for g in sorted(fal[hit[0]]):
+                        n += 1
+                        gname = "%s.%s" % (g[1].split(".")[-1], g[2])
+                        rep.fail(cl + ".global-state", gname, "self.%s may be the module-level object %s itself (assigned without a copy in %s) and is changed in place (%s) in %s: the change is seen by every later anonymizer in the process" % (hit[0], gname, f.cls.name, hit[1], f.qualname),
+                                 W(f, e.node), key="%s.global-state|%s" % (cl, gname))
             if e.kind == "call" and e.a[1][0] == "attr" and e.a[1][2] in MUTATORS | {"put", "forceput", "__setitem__", "__ior__", "__iadd__"}:
                 recv, what = e.a[1][1], "%s(...)" % e.a[1][2]
             elif e.kind == "store_sub":
@@ -427,6 +481,22 @@ def c13(ctx, rep):
             if any(nm in ("logging.warning", "logging.error", "logging.critical", "logging.warn") for nm in names) and (("attr", SELF, "salt") in e.a[2] or gen in e.a[2]):
                 logged = True
         ok_log = logged if n_gen == 1 else (ok_log and logged)
+        # the reported salt can be handed back with -s: drawn from letters and digits only (no leading '-', no ',', no blank)
+        alph = None
+        why = "unrecognised generator"
+        for x in subterms(gen):
+            if M.is_call(x):
+                nm = M.callee_name(x)
+                if nm in ("choice", "choices", "sample") and x[2] and x[2][0][0] == "const" and isinstance(x[2][0][1], str):
+                    alph = x[2][0][1]
+                elif nm == "token_hex" or (nm == "hex" and False):
+                    alph = "0123456789abcdef"
+                elif nm in ("token_urlsafe", "token_bytes", "urandom", "getrandbits", "random", "randint", "randrange", "uuid4", "uuid1"):
+                    why = "%s() is not confined to letters and digits" % nm
+        ok_alpha = alph is not None and alph.isascii() and alph.isalnum()
+        rep.ob("C13.generated-salt-reusable", "FileAnonymizer.__init__", ok_alpha,
+               "the generated salt is built by %s%s; it must consist of ASCII letters and digits so that the reported value can be passed back with -s (a leading '-' is taken for an option)" % (show(gen)[:90], "" if ok_alpha else " (%s)" % (why if alph is None else "alphabet %r" % alph[:70])),
+               W(f_fa), key="C13.generated-salt-reusable|FileAnonymizer.__init__")
     rep.ob("C13.generated-salt-reported", "FileAnonymizer.__init__", ok_log, "when no salt is given the generated salt is logged at WARNING or above", W(f_fa), key="C13.generated-salt-reported|FileAnonymizer.__init__")
     from .checks_ip import _salt_defaulting
     _salt_defaulting(ctx, rep, "C13")
